@@ -12,6 +12,7 @@ from concurrent.futures import ThreadPoolExecutor
 from .common import evals
 
 PROP_FILE = "Properties/C15.v"
+GEN = ["GenC15"]
 RUN_FILES = ["Model/C15_run.v"]
 
 KINDS = ["guided", "dynamic", "static"]
@@ -19,6 +20,9 @@ KCOQ = {"guided": "Guided", "dynamic": "Dynamic", "static": "Static"}
 HDR = ("From Coq Require Import ZArith List.\nFrom PR Require Import Base.ListX Model.Sched Model.C15_run.\n"
        "Import ListNotations.\nOpen Scope Z_scope.\n")
 DRIVER_PROCS = 6
+# which executions of each generator class are shown as evidence samples (1-based position inside the class)
+SAMPLE_AT = {"prng": (2, 9), "prng_macro": (3,), "boundary": (14,), "malformed": (1,), "exhaustive_step": (15, 230),
+             "exhaustive_macro": (70,), "depth_first_sample_macro": (500,)}
 
 
 # ----------------------------------------------------------------------------------------------- generation
@@ -308,10 +312,20 @@ def run(ctx):
         for run_ in r["runs"]:
             items.append((e["conf"], e["nw"], run_, cls))
     ctx.exhaustive = bool(explores) and complete
+    scopes = {}
+    for e, r in zip(explores, eres):
+        if not e["sampled"] and r["complete"]:
+            k = ("critical-section" if e["macro"] else "action", e["nw"], e["conf"]["n"])
+            scopes[k] = scopes.get(k, 0) + len(r["runs"])
+    ctx.notes.append("completely enumerated interleavings (every maximal execution in which each turn goes to an enabled worker; "
+                     "granularity, workers, n -> executions over the kind/chunk combinations): "
+                     + "; ".join("%s w=%d n=%d -> %d" % (g, w, n_, c) for (g, w, n_), c in sorted(scopes.items()))
+                     + ("; 3 workers with n = 4, 5 are depth-first samples only" if ctx.thorough else ""))
     if not complete:
         ctx.notes.append("some exhaustive scopes hit their cap: the Scheduler under test has more interleavings than the modelled one")
 
     cases, mcases, disc_bad = [], [], []
+    seen_cls = {}
     fails = Sorted(ctx)
     for conf, nw, res, cls in items:
         ctx.count(cls)
@@ -322,9 +336,12 @@ def run(ctx):
             continue
         receivers = len(set(w for w, _, _ in res["yields"]))
         nontriv = len(res["yields"]) >= 2 and (receivers >= 2 or nw == 1)
-        ctx.case((repr(conf), nw, tuple(res["turns"])), nontrivial=nontriv,
-                 sample={cls: conf, "workers": nw, "turns": len(res["turns"]),
-                         "yields": res["yields"][:6], "final_counters": res["final"]})
+        seen_cls[cls] = seen_cls.get(cls, 0) + 1
+        sample = None
+        if seen_cls[cls] in SAMPLE_AT.get(cls, ()):     # a few varied executions per generator class go into the evidence
+            sample = {cls: conf, "workers": nw, "turns": len(res["turns"]), "schedule_head": res["turns"][:16],
+                      "yields": res["yields"][:6], "final_counters": res["final"], "self._chunk": res["chunk0"]}
+        ctx.case((repr(conf), nw, tuple(res["turns"])), nontrivial=nontriv, sample=sample)
         ctx.count("kind_" + conf["kind"])
         if not ok or conf["kind"] not in KINDS:
             continue
